@@ -154,6 +154,24 @@ ALLOWED_MODULE_STATE = {
 }
 
 
+# stores into attributes of objects the function did not construct itself (audited one by one)
+AUDITED_FOREIGN_STORES = {
+    ("pygradflow.iterate._read_only", "a.flags.writeable"),  # numpy flag, not a value (see C11)
+    ("pygradflow.newton.GlobalizedNewtonMethod.step", "step_result.active_set"),  # the StepResult just returned by this step's solver
+}
+
+
+def _is_package_class(repo, mod, name):
+    """`name` (as visible in module `mod`) is a class of the package"""
+    if name in mod.classes:
+        return True
+    imp = mod.imports.get(name)
+    if imp and imp[0] == "attr":
+        m2 = repo.try_module(imp[1])
+        return m2 is not None and imp[2] in m2.classes
+    return False
+
+
 @unit("C10.no_shared_mutable_state", ["C10"], ["pygradflow.solver.Solver.__init__"])
 def shared_state(u):
     repo = u.repo
@@ -169,12 +187,31 @@ def shared_state(u):
             for an, av in c.class_attrs.items():
                 u.ensure(not isinstance(av, MUTABLE_NODES + (ast.Call,)) or c.is_dataclass, f"class_attribute:{c.qualname}.{an}", desc=f"class-level mutable attribute {c.qualname}.{an}")
         for f in list(mod.functions.values()) + [m for c in mod.classes.values() for m in c.methods.values()]:
+            # local names bound (only) to the result of a constructor call of a package class: fresh objects
+            binds = {}
+            for n in ast.walk(f.node):
+                if isinstance(n, ast.Assign) and len(n.targets) == 1 and isinstance(n.targets[0], ast.Name):
+                    binds.setdefault(n.targets[0].id, []).append(n.value)
+                elif isinstance(n, (ast.AugAssign, ast.AnnAssign)) and isinstance(n.target, ast.Name):
+                    binds.setdefault(n.target.id, []).append(None)
+                elif isinstance(n, (ast.For, ast.comprehension)) :
+                    for t in ast.walk(n.target):
+                        if isinstance(t, ast.Name):
+                            binds.setdefault(t.id, []).append(None)
+            params_ = {a.arg for a in f.node.args.args + f.node.args.kwonlyargs}
+            fresh = {nm for nm, vals in binds.items() if nm not in params_ and len(vals) == 1 and isinstance(vals[0], ast.Call) and isinstance(vals[0].func, ast.Name) and _is_package_class(repo, mod, vals[0].func.id)}
             for n in ast.walk(f.node):
                 if isinstance(n, (ast.Global, ast.Nonlocal)):
                     u.ensure(False, f"global_statement:{f.qualname}", desc=f"{f.qualname} rebinds {'/'.join(n.names)} with a global/nonlocal statement")
                 # stores into the shared default Params / the problem / the transformation
                 if isinstance(n, ast.Attribute) and isinstance(n.ctx, ast.Store):
                     base = ast.unparse(n.value)
+                    if base in fresh:
+                        continue  # attribute of an object constructed in this very function
+                    if base != "self" and not base.startswith("self.") or base.count(".") >= 1:
+                        # a store into ANOTHER object's attribute: only the audited ones
+                        u.ensure((f.qualname, ast.unparse(n)) in AUDITED_FOREIGN_STORES, f"store_to_foreign_object:{f.qualname}:{ast.unparse(n)}", desc=f"{f.qualname} stores to {ast.unparse(n)}: an attribute of an object it did not construct (audited list: {sorted(AUDITED_FOREIGN_STORES)})")
+                        continue
                     if base.endswith("params") or base in ("self.problem", "problem", "self.orig_problem", "self.transform", "orig_problem"):
                         u.ensure(f.name in ("__init__", "__post_init__") and base == "self", f"store_to_persistent_input:{f.qualname}:{base}.{n.attr}", desc=f"{f.qualname} stores to {base}.{n.attr} (params / problem / transformation are inputs)")
             # mutable default arguments must never be written through
@@ -204,10 +241,19 @@ def shared_state(u):
     written = sorted({n.attr for n in ast.walk(solve.node) if isinstance(n, ast.Attribute) and isinstance(n.ctx, ast.Store) and isinstance(n.value, ast.Name) and n.value.id == "self"})
     u.ensure(set(written) <= {"evaluator", "penalty_strategy", "rho"}, "solve_writes_only{self.evaluator,self.penalty_strategy,self.rho}", desc=f"Solver.solve writes self.{written}")
     # cached properties of persistent objects read construction-time fields only
-    for q, allowed in (("pygradflow.transform.Transformation.scaled_problem", {"orig_problem", "scaling"}), ("pygradflow.transform.Transformation.trans_problem", {"scaled_problem"}), ("pygradflow.problem.Problem.var_bounded", {"var_lb", "var_ub"})):
+    # (fields stored by __init__ and by no other method of the class, or other cached properties of that kind)
+    for q in ("pygradflow.transform.Transformation.scaled_problem", "pygradflow.transform.Transformation.trans_problem", "pygradflow.problem.Problem.var_bounded"):
         f = u.func(q)
+        c = u.cls(q.rsplit(".", 1)[0])
+        stored_by = {}
+        for m in c.methods.values():
+            for n in ast.walk(m.node):
+                if isinstance(n, ast.Attribute) and isinstance(n.ctx, ast.Store) and isinstance(n.value, ast.Name) and n.value.id == "self":
+                    stored_by.setdefault(n.attr, set()).add(m.name)
+        ctor_only = {a for a, ms in stored_by.items() if ms <= {"__init__"}}
+        cached = {m.name for m in c.methods.values() if m.is_cached_property}
         reads = {n.attr for n in ast.walk(f.node) if isinstance(n, ast.Attribute) and isinstance(n.value, ast.Name) and n.value.id == "self"}
-        u.ensure(f.is_cached_property and reads <= allowed, f"cached_property_history-independent:{q.split('.')[-1]}", desc=f"{q} reads self.{sorted(reads)}")
+        u.ensure(f.is_cached_property and reads <= (ctor_only | cached), f"cached_property_history-independent:{q.split('.')[-1]}", desc=f"{q} reads self.{sorted(reads)}; construction-time fields: {sorted(ctor_only)}")
     # global numpy random state is never used (the condition estimator owns a seeded generator)
     for f in in_scope_functions(repo):
         for n in ast.walk(f.node):
